@@ -3,6 +3,7 @@ import CedarVerif.Driver.Ops.Conf
 import CedarVerif.Driver.Ops.TC
 import CedarVerif.Driver.Ops.Syntax
 import CedarVerif.Driver.Ops.PolicySet
+import CedarVerif.Driver.Ops.Est
 /-
 Line-protocol driver: one request per line on stdin, one reply per line on stdout.
 Unknown or malformed requests answer `(bad-op)`; the driver never defaults.
@@ -16,7 +17,8 @@ def handlers : List (Sexp → Option String) := [
   Ops.handleConf,
   Ops.handleTC,
   Ops.handleSyntax,
-  Ops.handlePSet
+  Ops.handlePSet,
+  Ops.handleEst
 ]
 
 def handle (x : Sexp) : String :=
